@@ -24,6 +24,8 @@ Proj(ls) == [q \in 1..Len(ls) |-> [k |-> ls[q].k, depth |-> ls[q].depth]]
 JudgeEvent(ev) ==
   \A tr \in {FromDL(ev.dl)} : \A L \in {LeavesT(tr)} : \A tooDeep \in {Height(tr) > MAX_DEPTH} :
   /\ (~ev.panic \/ Report("C11", "taproot_panic", ev, ev.msg))
+  \* a tree within the depth limit on which the library panics has no output key, no control blocks
+  /\ (~ev.panic \/ tooDeep \/ Report("C15", "valid_tree_panics", ev, ev.msg))
   /\ (ev.panic \/
       IF tooDeep
       THEN (~ev.parsed \/ Report("C15", "tree_deeper_than_128_accepted", ev, Height(tr)))
@@ -37,18 +39,21 @@ JudgeEvent(ev) ==
           /\ (ev.translated_leaves = Proj(L) \/ Report("C15", "leaves_differ_after_translate", ev, ""))
           /\ (ev.combine_leaves = Proj(L) \/ Report("C15", "leaves_differ_after_combine", ev, ""))
           \* commitment
-          /\ (ev.root = Commit(tr) \/ Report("C15", "merkle_root_commits_to_other_tree", ev, <<ev.root, Commit(tr)>>))
-          /\ (ev.output_key_ok \/ Report("C15", "output_key_is_not_tweak_of_internal_key", ev, ""))
-          /\ (ev.spk_ok \/ Report("C15", "script_pubkey_is_not_p2tr_of_output_key", ev, ""))
-          /\ (Len(ev.spend) = Len(L) \/ Report("C15", "spend_info_leaf_count", ev, <<Len(ev.spend), Len(L)>>))
-          /\ (Len(ev.spend) # Len(L) \/
-              \A q \in 1..Len(L) :
-                LET s == ev.spend[q] IN
-                /\ ((s.k = L[q].k /\ s.depth = L[q].depth)
-                    \/ Report("C15", "spend_info_leaf_order_or_depth", ev, <<q, s.k, s.depth, L[q].k, L[q].depth>>))
-                /\ (s.path = L[q].path \/ Report("C15", "control_block_path_differs", ev, <<q, s.path, L[q].path>>))
-                /\ (s.verifies \/ Report("C15", "control_block_does_not_verify", ev, q))
-                /\ (s.internal_ok \/ Report("C15", "control_block_internal_key_or_parity", ev, q)))))
+          /\ (~ev.spend_panic \/ Report("C11", "taproot_panic", ev, "spend_info"))
+          /\ (~ev.spend_panic \/ Report("C15", "spend_info_panics_on_accepted_tree", ev, ""))
+          /\ (ev.spend_panic \/ (
+              /\ (ev.root = Commit(tr) \/ Report("C15", "merkle_root_commits_to_other_tree", ev, <<ev.root, Commit(tr)>>))
+              /\ (ev.output_key_ok \/ Report("C15", "output_key_is_not_tweak_of_internal_key", ev, ""))
+              /\ (ev.spk_ok \/ Report("C15", "script_pubkey_is_not_p2tr_of_output_key", ev, ""))
+              /\ (Len(ev.spend) = Len(L) \/ Report("C15", "spend_info_leaf_count", ev, <<Len(ev.spend), Len(L)>>))
+              /\ (Len(ev.spend) # Len(L) \/
+                  \A q \in 1..Len(L) :
+                    LET s == ev.spend[q] IN
+                    /\ ((s.k = L[q].k /\ s.depth = L[q].depth)
+                        \/ Report("C15", "spend_info_leaf_order_or_depth", ev, <<q, s.k, s.depth, L[q].k, L[q].depth>>))
+                    /\ (s.path = L[q].path \/ Report("C15", "control_block_path_differs", ev, <<q, s.path, L[q].path>>))
+                    /\ (s.verifies \/ Report("C15", "control_block_does_not_verify", ev, q))
+                    /\ (s.internal_ok \/ Report("C15", "control_block_internal_key_or_parity", ev, q)))))))
 
 Inv == i > 0 => JudgeEvent(Rec[i])
 Post == PrintT("TRACE_DONE " \o ToJson(<<Len(Rec), TLCGet("stats").distinct>>))
